@@ -61,6 +61,16 @@ class CrudProfile(StoreProfile):
             alpha["D1"] = anc[-1]
         if len(anc) > 2:
             alpha["D2"] = anc[-3]
+        # same branch top, another value at the first free-form level: creating it creates NEW ancestors below
+        # directories whose listing has been asked (and found non-empty) before
+        for i, k in enumerate(m.by_name[t].keys):
+            if m.vocab(t, k)[0] == "free":
+                alt = [v for v in vocab.values(t, k) if v != segs[i]]
+                if alt:
+                    h = "/".join(segs[:i] + [rng.choice(alt)] + segs[i + 1:])
+                    if m.natural_type(h) == t:
+                        alpha["H"] = h
+                break
         # a Sid of a type without path template, an untyped string
         nop = [p for p in ("/".join(segs[:i]) for i in range(1, len(segs))) if m.natural_type(p) and
                not m.has_path(m.natural_type(p), cfg)]
